@@ -760,6 +760,61 @@ def run(tier="quick", seed=0):
                     lst.sort(key=lambda t: t[:2])
                     del lst[MAX_PER_CLAUSE:]
 
+    # ---- layer R: a call that is REFUSED (one of several values given is too wide / negative / for an unknown field) defines nothing:
+    #      the layout afterwards is that of the values actually accepted, whatever the refused call named first
+    for L in (8, 16, 32):
+        for bad_kind in ("too_wide", "negative", "unknown_field", "already_set"):
+            for auto_first in (True, False):
+                ev += 1
+                distinct.add(("R", L, bad_kind, auto_first))
+                calls, why = [], None
+                try:
+                    bf = bitfield_mod.BitField(L)
+                    bf.add_field("chip")
+                    bf.add_field("core", length=2)
+                    calls += ["bf = BitField(%d)" % L, "bf.add_field('chip')", "bf.add_field('core', length=2)"]
+                    big = (1 << (L - 1)) - 1
+                    base = bf
+                    kw = [("chip", big)]
+                    if bad_kind == "too_wide":
+                        kw.append(("core", 4))
+                    elif bad_kind == "negative":
+                        kw.append(("core", -1))
+                    elif bad_kind == "unknown_field":
+                        kw.append(("nosuch", 1))
+                    else:
+                        base = bf(core=1)
+                        calls.append("base = bf(core=1)")
+                        kw.append(("core", 2))
+                    if not auto_first:
+                        kw.reverse()
+                    import collections as _c
+                    try:
+                        base(**_c.OrderedDict(kw))
+                        refused = False
+                    except (ValueError, bitfield_mod.UnavailableFieldError if hasattr(bitfield_mod, "UnavailableFieldError") else ValueError, Exception):
+                        refused = True
+                    calls.append("%s(%s)   # %s" % ("base" if base is not bf else "bf", ", ".join("%s=%d" % kv for kv in kw), "refused" if refused else "ACCEPTED"))
+                    if not refused:
+                        why = "a call giving %s was accepted" % (kw,)
+                    else:
+                        keys = [bf(chip=v, core=v % 4) for v in (0, 5, 15)]
+                        calls.append("keys for chip = 0, 5, 15 (4 bits) and core = 0..3 (2 bits)")
+                        bf.assign_fields()
+                        calls.append("bf.assign_fields()")
+                        loc = bf.get_location_and_length("chip")
+                        if loc[1] != 4:
+                            why = "after a refused call naming chip=%d the field chip (largest accepted value 15) is laid out with %d bits" % (big, loc[1])
+                        elif any(k.get_value() != ((5 if i == 1 else 15 if i == 2 else 0) << loc[0]) | (((0, 1, 3)[i]) << bf.get_location_and_length("core")[0]) for i, k in enumerate(keys)):
+                            why = "values do not read back after the refused call"
+                except Exception as e:      # noqa
+                    why = "%s: %s (4 + 2 bits fit in %d; the only value ever given that does not is in a call that was refused)" % (type(e).__name__, e, L)
+                if why:
+                    lst = found.setdefault("refused_call_leaves_its_mark", [])
+                    lst.append(((2, L, 0, 0), ev, {"id": "R_%d" % ev, "clause": "refused_call_leaves_its_mark", "why": why, "inputs": {"calls": calls}}))
+                    lst.sort(key=lambda t: t[:2])
+                    del lst[MAX_PER_CLAUSE:]
+
     viol = []
     order = sorted(found, key=lambda c: found[c][0][:2])
     for rank in range(MAX_PER_CLAUSE):      # the smallest input of every clause first, then the second smallest
